@@ -7,8 +7,10 @@ cd "$(dirname "$0")"
 mkdir -p build evidence replays
 ./mkoverlay.sh
 (cd mc && go build -tags verif -overlay "$VERIF_DIR/build/overlay.json" -o "$VERIF_DIR/build/mc" ./cmd/mc) || exit 1
-# C18 (schedmc): instrumenter, instrumented explorer, -race binary (the first
-# -race build is slow; doing it here keeps `./check C18 quick` fast).
+# C18 (schedmc) and the schedule dimension of C16 (callmc/conc, concworker; same
+# two binaries): instrumenter, instrumented explorer, -race binary (the first
+# -race build is slow; doing it here keeps `./check C18 quick` and
+# `./check C16 quick` fast).
 (cd mc && go build -o "$VERIF_DIR/build/mc-instr" ./cmd/instr) || exit 1
 ./build/mc-instr -v || exit 1
 (cd mc && go build -tags verif,verifsched -overlay "$VERIF_DIR/build/overlay-sched.json" -o "$VERIF_DIR/build/mc-sched" ./cmd/mc-sched) || exit 1
